@@ -144,6 +144,7 @@ def check_args(case):
                 placements = place(vr, nets, machine, cons, **place_kwargs)
         stages.append("place")
         _ordered_placers(case, vr, nets, machine, cons, documented)
+        _deprecated_wrapper(case, vr, nets, keys, machine, cons, documented)
         with unchanged("allocate", vr, nets, machine, cons, placements):
             with sut("allocate", documented):
                 allocations = allocate(vr, nets, machine, cons, placements)
@@ -211,6 +212,32 @@ def check_args(case):
         stages.append(type(e).__name__)
     return {"nontrivial": "route" in stages and len(case["nets"]) > 0,
             "classes": stages + ["placer=" + case["placer"]]}
+
+
+def _deprecated_wrapper(case, vr, nets, keys, machine, cons, documented):
+    """The deprecated one-call wrapper with each combination of its two
+    flags: neither the caller's objects nor the function's own default
+    arguments may be changed."""
+    import warnings
+    from rig.place_and_route import wrapper
+    apps = dict((v, "a.aplx") for v in vr)
+    flags = [(True, True), (False, True), (True, False),
+             (False, False)][case["seed"] % 4]
+    defaults = [d for d in (wrapper.__defaults__ or ())
+                if isinstance(d, (list, dict, set))]
+    for given in (True, False):
+        args = (vr, apps, nets, keys, machine) + ((cons,) if given else ())
+        with warnings.catch_warnings():
+            warnings.simplefilter("ignore")
+            with unchanged("wrapper(reserve_monitor=%s, align_sdram=%s)"
+                           % flags, vr, apps, nets, keys, machine, cons,
+                           *defaults):
+                try:
+                    with sut("wrapper", documented):
+                        wrapper(*args, reserve_monitor=flags[0],
+                                align_sdram=flags[1])
+                except documented:
+                    pass
 
 
 def _ordered_placers(case, vr, nets, machine, cons, documented):
